@@ -50,8 +50,8 @@ ANCHORS = [
 
 def plan(tier):
     if tier == "quick":
-        return {"shards": 16, "schemas": 260, "values": 10, "timeout": 300}
-    return {"shards": 16, "schemas": 20000, "values": 10, "timeout": 3000}
+        return {"shards": 16, "schemas": 260, "values": 10, "timeout": 900}
+    return {"shards": 16, "schemas": 20000, "values": 10, "timeout": 7200}
 
 
 def tmpl_construction(rng):
